@@ -67,8 +67,8 @@ def check_packets(fmt, pk, acc, w):
                 acc.violation("yd-line-termination", f"{w['definition']}: packet is not exactly one CR LF terminated line", dict(w, packet=repr(p)))
 
 
-def decode_packets(fmt, pk):
-    dec = NMEA2000Decoder()
+def decode_packets(fmt, pk, dec=None):
+    dec = dec or NMEA2000Decoder()
     r = None
     if fmt == "actisense":
         return dec.decode_actisense_string("A000000.000 " + pk)
@@ -99,6 +99,7 @@ def run_defs(spec, acc):
     defs = [d for k, d in enumerate(defs) if k % spec["n"] == spec["i"]]
     n_payloads = 12 if quick else 600
     addressing = [(0, 0, 255), (7, 255, 0), (3, 17, 239), (6, 253, 254)]
+    long_lived: dict = {}
     for d in defs:
         nb = d.length if d.length is not None else (d.total_bits() + 7) // 8
         for c in range(n_payloads):
@@ -155,6 +156,18 @@ def run_defs(spec, acc):
                         key = "empty-payload-actisense-line-rejected"
                     acc.violation(key, f"{d.id} {fmt}: decoder raised {type(e).__name__}: {e}", w)
                     continue
+                # the same packets once more through a decoder that lives for the whole shard (it has already
+                # reassembled earlier messages of this stream, possibly with the same sequence counter)
+                try:
+                    r_long = decode_packets(fmt, pk, long_lived.setdefault(fmt, NMEA2000Decoder()))
+                except Exception as e:  # noqa: BLE001
+                    r_long = None
+                    if not (fmt == "actisense" and codec_payload == b""):
+                        acc.violation("own-packets-rejected:long-lived-decoder", f"{d.id} {fmt}: long-lived decoder raised {type(e).__name__}: {e}", w)
+                if r is not None and r_long is not None and project.msg_proj(r_long) != project.msg_proj(r):
+                    acc.violation("long-lived-decoder-differs-from-fresh", f"{d.id} {fmt}: a decoder that saw earlier traffic decodes the encoder's packets differently", w)
+                elif r is not None and r_long is None and not (fmt == "actisense" and codec_payload == b""):
+                    acc.violation("own-packets-rejected:long-lived-decoder", f"{d.id} {fmt}: a decoder that saw earlier traffic returned nothing for the encoder's packets", w)
                 acc.count("format_roundtrips_compared")
                 if fmt == "actisense" and not pdu1 and r is not None and r.destination == dst:
                     # the Actisense text header carries the destination literally; for a broadcast PGN sent with a
